@@ -444,6 +444,11 @@ def run(chk):
     from .c08 import rule_e_inflight, rule_f_fragcache
     rule_e_inflight(chk, prog)
     rule_f_fragcache(chk, prog)
+    # every pool worker has a compressor copy and scratch buffer of its own (L8 of C09): two workers that share one
+    # produce bytes that depend on which of them ran when
+    from .c09 import block_processor_rules
+    block_processor_rules(chk, prog)
+    chk.floor("L8", 1)
     chk.floor("K3-worker", 8)
     chk.floor("K2-seq", 10)
     chk.floor("K2-env", 2)
